@@ -305,6 +305,20 @@ pub fn session_oracle(fr: &Frames, verify: bool, evs: &[REv], trace: &[String]) 
         let pos = got.iter().zip(want.iter()).position(|(a, b)| *a != b).unwrap_or(got.len().min(want.len()));
         return Some(format!("result #{pos}: got {:?} want {:?} (got {} results, want {})", got.get(pos), want.get(pos), got.len(), want.len()));
     }
+    // a transient result is returned exactly where the transport reported it: after every frame that had completely arrived before
+    // it (a complete frame is handed out before the transport is touched again), before everything that arrived later
+    {
+        let ends: Vec<usize> = fr.frames.iter().scan(0usize, |acc, f| { *acc += f.len(); Some(*acc) }).collect();
+        let mut received = 0usize; let mut want_pos: Vec<usize> = vec![]; // number of frame results that precede each transient
+        for e in evs { match e { REv::Data(d) => received += d.len(), REv::Err(_) | REv::Elapsed => want_pos.push(ends.iter().filter(|x| **x <= received).count()), _ => {} } }
+        let mut frames_seen = 0usize; let mut got_pos: Vec<usize> = vec![];
+        for t in trace { if is_transient_tok(t) { got_pos.push(frames_seen); } else if !t.starts_with('W') && t != "DC" { frames_seen += 1; } }
+        // a rejected version / decode error counts as the result of its frame; only compare when every frame yields exactly one result
+        if got_pos.len() == want_pos.len() && got_pos != want_pos {
+            let k = got_pos.iter().zip(want_pos.iter()).position(|(a, b)| a != b).unwrap_or(0);
+            return Some(format!("transient result #{k} is returned after {} frame results, but {} frames had completely arrived when the transport reported it", got_pos[k], want_pos[k]));
+        }
+    }
     let tr_got: Vec<&String> = trace.iter().filter(|t| is_transient_tok(t)).collect();
     let tr_want: Vec<String> = evs.iter().filter_map(|e| match e { REv::Err(k) => Some(format!("IO{k}")), REv::Elapsed => Some("TO".into()), _ => None }).collect();
     if tr_got.len() != tr_want.len() || tr_got.iter().zip(tr_want.iter()).any(|(a, b)| *a != b) {
@@ -337,6 +351,11 @@ pub fn frame_pool(rng: &mut Rng, compressed: bool) -> Vec<Vec<u8>> {
         for (k, t) in GOOD_VERSION_TEXTS.iter().enumerate() { let mut f = ver.clone(); let n = f.len(); f[n - 2] = [9u8, 8, 10][k % 3]; for j in 0..8 { f[4 + j] = *t.as_bytes().get(j).unwrap_or(&0); } v.push(f); }
     }
     for d in &defaults { for _ in 0..2 { let mut f = d.clone(); if f.len() > 3 { let i = 3 + rng.below((f.len() - 3) as u64) as usize; f[i] = rng.byte(); } v.push(f); } }
+    // text kinds that read their text to the end of the frame, with a text that fills the frame to its last byte (no NUL inside): IS_MSO (11),
+    // IS_III (12), IS_ACR (55), IS_MTC (14): what follows them in a buffer must not leak into the text
+    for (ty, head) in [(11u8, vec![0u8, 0, 0, 0, 0]), (12, vec![0, 0, 0, 0, 0]), (55, vec![0, 0, 1, 0, 0]), (14, vec![0, 0, 0, 0, 0])] {
+        for txt in [&b"four"[..], &b"eight888"[..]] { let mut body = vec![ty]; body.push(0); body.extend(&head[..]); body.truncate(7); body.extend_from_slice(txt); if (body.len() + 1) % 4 == 0 { let mut f = vec![size_byte(compressed, body.len() + 1)]; f.extend(body); v.push(f); } }
+    }
     for ty in [0u8, 68, 100, 200, 249] { let n = rng.range(0, 7) as usize; let r = rng.bytes(1 + 4 * n); v.push(raw_frame(compressed, ty, rng.byte(), &r)); }
     let max: u64 = if compressed { 1020 } else { 252 };
     for _ in 0..6 { let ty = 1 + rng.below(67) as u8; let len = 4 * rng.range(1, max / 4) as usize; let r = rng.bytes(len - 3); v.push(raw_frame(compressed, ty, rng.byte(), &r)); }
